@@ -64,7 +64,8 @@ def config_args(cfg):
     args = []
     t = cfg.get("tags")
     if t:
-        for x in ([t] if isinstance(t, str) else t):
+        # "a && b" = two separate --tags arguments (AND-ed by behave)
+        for x in (t.split(" && ") if isinstance(t, str) else t):
             args.append("--tags=%s" % x)
     if cfg.get("stop"):
         args.append("--stop")
